@@ -35,6 +35,16 @@ func (e *Engine) callResolved(fr *Frame, st *State, c *ssa.CallCommon, fn SV, ar
 		return e.builtin(fr, st, b, c, args, resT, pos)
 	}
 	f, ok := fn.(*FuncSV)
+	if ok && f.Fn == nil && f.Term != "" {
+		// a function value the caller supplied: it must not be nil, and it may do
+		// anything to the heap and to the ghost state.
+		e.vc.oblige(e.oname(fr, "safety:nilfunc#"), st.pc, fmt.Sprintf("(not (= %s 0))", f.Term), "call of a nil function value at "+e.posStr(pos))
+		e.havocWholeHeap(st, "unknown function value called at "+e.posStr(pos))
+		if resT == nil {
+			return nil
+		}
+		return e.freshSV(resT, "r_indirect", st.pc, st)
+	}
 	if !ok || f.Fn == nil {
 		panic(engErr("indirect call through an unknown function value at " + e.posStr(pos)))
 	}
@@ -92,6 +102,9 @@ func shortName(fn *ssa.Function) string {
 
 func (e *Engine) callStatic(fr *Frame, st *State, fn *ssa.Function, args []SV, resT types.Type, pos token.Pos) SV {
 	key := funcKey(fn)
+	if fr != nil && fr.top && e.curContract != nil && len(e.curContract.CallAsserts) > 0 {
+		e.callAsserts(fr, st, fn, args, pos)
+	}
 	if h, ok := intrinsics[key]; ok {
 		return h(e, fr, st, fn, args, resT, pos)
 	}
@@ -126,6 +139,37 @@ func (e *Engine) callStatic(fr *Frame, st *State, fn *ssa.Function, args []SV, r
 	}
 	*st = *ns
 	return rv
+}
+
+// callAsserts checks the verified function's assert_call clauses for this callee:
+// statements about the arguments that must hold at every call of it.
+func (e *Engine) callAsserts(fr *Frame, st *State, fn *ssa.Function, args []SV, pos token.Pos) {
+	rn := relName(fn)
+	for k, ca := range e.curContract.CallAsserts {
+		if ca.Text != rn && ca.Text != fn.Name() {
+			continue
+		}
+		if fr.callHits == nil {
+			fr.callHits = map[int]int{}
+		}
+		fr.callHits[k]++
+		env := e.loopEnv(fr, st)
+		sig := fn.Signature
+		i := 0
+		if sig.Recv() != nil {
+			env = env.with("recv", TV{V: args[0], T: sig.Recv().Type()})
+			i = 1
+		}
+		for j := 0; j < sig.Params().Len() && i+j < len(args); j++ {
+			env = env.with(fmt.Sprintf("arg%d", j), TV{V: args[i+j], T: sig.Params().At(j).Type()})
+		}
+		t, err := e.tryEvalBool(env, ca.Cl.Expr)
+		if err != nil {
+			panic(engErr(fmt.Sprintf("assert_call %s: %v", ca.Text, err)))
+		}
+		ob := e.vc.oblige(fmt.Sprintf("assert_call:%d#", k+1), st.pc, t, fmt.Sprintf("at the call of %s (%s): %s", ca.Text, e.posStr(pos), ca.Cl.Text))
+		ob.Props = ca.Cl.Props
+	}
 }
 
 func (e *Engine) zeroOrNil(t types.Type) SV {
@@ -224,19 +268,7 @@ func (e *Engine) applyContract(fr *Frame, st *State, fn *ssa.Function, c *Contra
 	}
 	if c.NoFrame && !c.Trusted {
 		// the callee's frame is not verified: nothing may be assumed unchanged
-		names := make([]string, 0, len(e.vc.heapSort))
-		for name := range e.vc.heapSort {
-			names = append(names, name)
-		}
-		sortStrings(names)
-		for _, name := range names {
-			st.heap[name] = e.vc.declare("HN_"+name, e.vc.heapSort[name])
-			e.vc.written[name] = true
-		}
-		for g := range st.ghost {
-			st.ghost[g] = e.vc.declare("GN_"+g, e.ghostSort(g))
-		}
-		e.vc.note("callee " + c.Key + " has no verified frame (noframe): all heap state havocked at the call")
+		e.havocWholeHeap(st, "callee "+c.Key+" has no verified frame (noframe)", c.Preserves...)
 	}
 	// a callee may allocate: watermark is non-decreasing
 	nwm := e.vc.declare("wm", "Int")
@@ -404,6 +436,7 @@ func (e *Engine) mapsCovered(m modEntry) []string {
 func (e *Engine) havocModifies(fr *Frame, st *State, env *Env, mc *Clause, cname string) {
 	m := e.evalModifies(env, mc)
 	if m.kind == "ghost" {
+		e.preservedWrite(st, "ghost("+m.name+")")
 		st.ghost[m.name] = e.vc.declare("G_"+m.name, e.ghostSort(m.name))
 		return
 	}
@@ -910,6 +943,71 @@ func (e *Engine) closedImplementers(it types.Type, m *types.Func) []*ssa.Functio
 
 // havocClosureEffects havocs every heap location the closure (and the functions
 // it calls, as far as they are visible and small) may write.
+func matchPreserve(name string, pats []string) bool {
+	n := strings.TrimPrefix(name, "F_")
+	for _, p := range pats {
+		if strings.HasSuffix(p, ".*") {
+			t := strings.TrimSuffix(p, "*")
+			if strings.HasPrefix(n, t) || strings.Contains(n, "_"+t) {
+				return true
+			}
+			continue
+		}
+		if n == p || strings.HasSuffix(n, "_"+p) || strings.HasPrefix(n, p+".") || strings.Contains(n, "_"+p+".") {
+			return true
+		}
+	}
+	return false
+}
+
+func (e *Engine) havocWholeHeap(st *State, why string, preserved ...string) {
+	// heap maps first touched after this point must be havocked too: another
+	// generation pass with the then-known maps is needed
+	e.anyLoopSeen = true
+	if c := e.curContract; c != nil {
+		for _, p := range c.Preserves {
+			covered := false
+			for _, q := range preserved {
+				if q == p || (strings.HasSuffix(q, ".*") && strings.HasPrefix(p, strings.TrimSuffix(q, "*"))) {
+					covered = true
+				}
+			}
+			if !covered {
+				e.preservedWrite(st, "F_"+p)
+			}
+		}
+	}
+	names := make([]string, 0, len(e.vc.heapSort))
+	for name := range e.vc.heapSort {
+		names = append(names, name)
+	}
+	sortStrings(names)
+	for _, name := range names {
+		if len(preserved) > 0 && matchPreserve(name, preserved) {
+			continue
+		}
+		e.preservedWrite(st, name)
+		st.heap[name] = e.vc.declare("HN_"+name, e.vc.heapSort[name])
+		e.vc.written[name] = true
+	}
+	var gs []string
+	for g := range st.ghost {
+		gs = append(gs, g)
+	}
+	sortStrings(gs)
+	for _, g := range gs {
+		if matchPreserve("ghost("+g+")", preserved) {
+			continue
+		}
+		e.preservedWrite(st, "ghost("+g+")")
+		st.ghost[g] = e.vc.declare("GN_"+g, e.ghostSort(g))
+	}
+	nwm := e.vc.declare("wm", "Int")
+	e.vc.assume("true", fmt.Sprintf("(>= %s %s)", nwm, st.wm))
+	st.wm = nwm
+	e.vc.note(why + ": all heap and ghost state havocked at the call")
+}
+
 func (e *Engine) havocClosureEffects(fr *Frame, st *State, fv *FuncSV, seen map[*ssa.Function]bool, depth int) {
 	fn := fv.Fn
 	if seen[fn] || depth > 4 {
